@@ -30,15 +30,20 @@ def run(ctx):
     r = ctx.tlc_ok("BoxSize", "BoxSize_gen_quick.cfg" if q else "BoxSize_gen_thorough.cfg", workers=8, timeout=1200)
     inp = ctx.write_ndjson("hist.ndjson", r.exported)
     tr = os.path.join(ctx.specdir, "trace.ndjson")
-    s = core.absorb(ctx, ctx.harness(["c02-drive", "-in", inp, "-trace", tr, "-per", "4" if q else "16"], timeout=3000))
+    ri = ctx.tlc_ok("BoxLayouts", "BoxLayouts_quick.cfg", workers=14, timeout=3000, heap="12g", stack="64m")
+    inst = ctx.write_ndjson("inst.ndjson", sorted(ri.exported, key=lambda e: (e["layout"], e["ver"], e["flags"], e["cnt"], str(e["pick"]), e["hdr"], e["wrap"], str(e.get("ord")))))
+    s = core.absorb(ctx, ctx.harness(["c02-drive", "-in", inp, "-trace", tr, "-per", "4" if q else "16", "-instances", inst,
+                                      "-instance-stride", "2" if q else "1"], timeout=3000))
     if s["extra"]["objects"] < 500:
         raise core.Machinery("object pool unexpectedly small: %d" % s["extra"]["objects"])
+    if s["extra"]["layout_objects"] < 2000:
+        raise core.Machinery("only %d BoxLayouts.tla instances in the pool" % s["extra"]["layout_objects"])
     ctx.validate_traces_all("BoxSize", "BoxSize_trace.cfg", tr, keyfn=keyfn, max_rejects=12, groupfn=lambda h: (h.get("type"), h.get("obj", "").split(":")[0].split("#")[0].split("(")[0]), heap="12g",
                             what="BoxSize.tla rejected recorded Size/Info/Encode numbers")
     ctx.cov["bounds"] = {"histories": "all call histories of length <= %d over {Size, Info(''), Info(all:1), Encode, EncodeSW} x optimisation" % (3 if q else 5),
-                         "objects": s["extra"]["objects"], "object_types": s["extra"]["object_types"],
+                         "objects": s["extra"]["objects"], "box_shape_instances_among_them": s["extra"]["layout_objects"], "object_types": s["extra"]["object_types"],
                          "histories_per_object": 4 if q else 16, "trace_events": s["extra"]["events"]}
     ctx.cov["rule"] = ("pool = every box at every nesting level of every decodable corpus file, whole files in both encode modes, their init / "
-                       "segments / fragments, API-built fragments, segments and init segments; each object executes call histories "
+                       "segments / fragments, the decodable instances of every BoxLayouts.tla box shape (alone and inside the parent box), API-built fragments, segments and init segments; each object executes call histories "
                        "enumerated by BoxSize.tla (rotating through all of them); non-trivial = history executed on a real object")
     return ctx.finish("model_checking")
